@@ -424,6 +424,17 @@ class HTTP1Connection(httputil.HTTPConnection):
                 # No need to chunk the output if a Content-Length is specified.
                 and "Content-Length" not in headers
             )
+            # A body with neither Content-Length nor chunked encoding (which a
+            # 1.0 client does not understand) is delimited by closing the
+            # connection, so the connection cannot be kept alive.
+            if (
+                self._request_start_line.version != "HTTP/1.1"
+                and self._request_start_line.method != "HEAD"
+                and start_line.code not in (204, 304)
+                and (start_line.code < 100 or start_line.code >= 200)
+                and "Content-Length" not in headers
+            ):
+                self._disconnect_on_finish = True
             # If connection to a 1.1 client will be closed, inform client
             if (
                 self._request_start_line.version == "HTTP/1.1"
